@@ -1,7 +1,7 @@
 #!/bin/bash
 # seedregress.sh [jobs] : run every kept seeded change against its property's quick check (scratch copy of /repo/include);
 # prints one line per seed: name, property, DETECTED / MISSED / ERROR
-cd /verif
+cd "$(dirname "$0")/.."
 J=${1:-3}
 run_one() {
   d=$1; n=$(basename $d)
